@@ -773,6 +773,11 @@ main (int argc, char **argv)
           sel[1][1] = d;
           config (2, sel, two, vh_replay, 0);
         }
+      else if (sscanf (vh_replay, "3x2:%d:%d:%d", &a, &b, &n) == 3)
+        {
+          sel[0][0] = a; sel[0][1] = b; sel[1][0] = b; sel[1][1] = n; sel[2][0] = n; sel[2][1] = a;
+          config (3, sel, two, vh_replay, 0);
+        }
       else if (sscanf (vh_replay, "3x1:%d:%d:%d", &a, &b, &n) == 3)
         {
           sel[0][0] = a;
@@ -830,6 +835,28 @@ main (int argc, char **argv)
               config (3, sel, one, cfg, 0);
             }
   }
+  if (vh_thorough)
+    {
+      /* 3 threads x 2 operations each, rotated over a 5-operation alphabet; and 2 x 2 over all pairs of a 16-operation alphabet */
+      static const int s5[] = { 11, 18, 17, 34, 38 };
+      for (int a = 0; a < 5 && !vh_expired (); a++)
+        for (int b = 0; b < 5; b++)
+          for (int c = 0; c < 5; c++)
+            if (vh_mine (idx++))
+              {
+                int sel[MAXT][2] = { {s5[a] % ncanary0, s5[b] % ncanary0}, {s5[b] % ncanary0, s5[c] % ncanary0}, {s5[c] % ncanary0, s5[a] % ncanary0} };
+                snprintf (cfg, sizeof cfg, "3x2:%d:%d:%d", sel[0][0], sel[1][0], sel[2][0]);
+                config (3, sel, two, cfg, 0);
+              }
+      for (int a = 0; a < 32 && !vh_expired (); a += 2)
+        for (int b = 1; b < 32; b += 2)
+          if (vh_mine (idx++))
+            {
+              int sel[MAXT][2] = { {a, b}, {b, a}, {0, 0} };
+              snprintf (cfg, sizeof cfg, "2x2:%d:%d:%d:%d", a, b, b, a);
+              config (2, sel, two, cfg, 0);
+            }
+    }
   vh_statmax ("max_points_per_execution", max_points);
   vh_stat ("configurations_with_shared_writes", configs_with_shared_writes);
   vh_done ();
